@@ -26,6 +26,7 @@ Section Spec.
 
   Definition spec_iface : iface K V smap := {|
     i_init := fun items => Some (s_writes [] items);
+    i_from := fun s => Some s;
     i_combine := fun a b => Some (s_writes a (map snd b));
     i_combine_lower := fun a items => Some (s_writes a items);
     i_set := fun s k v => Some (s_write s k v);
